@@ -94,13 +94,18 @@ def main():
         return
     rel, props = sys.argv[2], sys.argv[3].split(",")
     every, offset, mx, tier = 1, 0, 10 ** 9, "quick"
+    nodrop = "--nodrop" in sys.argv
+    if nodrop:
+        sys.argv.remove("--nodrop")
     a = sys.argv[4:]
     for i in range(0, len(a), 2):
         if a[i] == "--every": every = int(a[i + 1])
         if a[i] == "--offset": offset = int(a[i + 1])
         if a[i] == "--max": mx = int(a[i + 1])
         if a[i] == "--tier": tier = a[i + 1]
-    ms = mutants(os.path.join(REPO, rel))
+    ms = [m for m in mutants(os.path.join(REPO, rel)) if not (nodrop and m["op"] == "drop-stmt")]
+    for i, m in enumerate(ms):
+        m["id"] = i
     os.makedirs("/verif/mutation", exist_ok=True)
     logf = "/verif/mutation/" + rel.replace("/", "_") + ".jsonl"
     done = set()
